@@ -11,7 +11,7 @@ from harness import world as W
 S = load()
 
 PROPERTY = "C15"
-LEVEL_TEXT = 'Exploration of creation / sharing / writing / replacement / dropping / gc histories against a shadow model of the true sharing relation, with an end-of-program sweep of 336 fresh-vector writes to make id() reuse observable; replay repeats 30 times.'
+LEVEL_TEXT = 'Exploration of creation / sharing / writing / replacement / dropping / gc histories against a shadow model of the true sharing relation, with an end-of-program sweep of 336 fresh-vector writes to make id() reuse observable (replay repeats 30 times); a directed part keeping 37 kinds of operation result alive together before writing each, and a part that moves vectors off caller tuples (writes, promotions, cell writes, column replacement) before batches of fresh vectors of the same lengths are written.'
 LEVEL_NOTE = 'id() reuse depends on the allocator: the sweep makes a stale registration fire with high probability but cannot force it.'
 DESIGN_REF = "DESIGN.md §5 C15"
 ENGINE = "world"
@@ -22,7 +22,7 @@ RULE = ("world programs over Vector(tuple) on a few caller tuples (the only real
         "without promotion, handle drops, drops into reference cycles, gc, allocation churn; each program ends with a sweep that "
         "creates and writes 48 fresh vectors of each length 0..6 while the whole pool is alive. Non-trivial = the program has a "
         "shared pair, a write the model says is private after a table constructor or column replacement ran, and a drop; "
-        "distinct = program encoding.")
+        "distinct = program encoding. results: pairs of sources (lengths weighted to 1) x 2..4 of 37 result-producing operations (copy protocol included), all results alive, each written. moved: 1..6 vectors (over a caller tuple or private) x 8 storage-moving operations, then 8..40 fresh vectors per length in play.")
 ASSUMPTIONS = [
     "two vectors share storage only when built over the same caller-supplied tuple object and until one of them is written; every other vector (fresh, copy, slice, result, table column, empty) has private storage",
     "an object dropped into an uncollected reference cycle still counts as live",
